@@ -1,5 +1,6 @@
 import GB.C16.Proofs
 import GB.C16.RaceProofs
+import GB.C16.LtsProofs
 import GB.Generated.Facts
 import GB.Stack.Lifecycle   -- STACK block at the end of this file (area `stack`)
 /-
@@ -843,3 +844,223 @@ theorem C16_hoisted_shutdown_check_waits_forever :
 theorem C16_facts_wait_loop :
     GB.Generated.c16WaitBeforeLoop = expectedWaitBeforeLoop ∧ GB.Generated.c16WaitInLoop = expectedWaitInLoop := by
   decide
+
+
+/-! ## round 5: Add ‖ Remove over ALL names on the full concrete state — bijection in quiescent states, exactly the
+    in-flight operation's partial work otherwise (lean/GB/C16/Lts.lean) -/
+
+open GB.C16.Lts in
+/-- Linearisation by the router mutex, on the full state: in every reachable state of the atomic-statement LTS `mstep`
+    (any number of goroutines in Add / Remove of any names, constructions succeeding / failing / rejected, pollers busy
+    or idle, every interleaving) the results returned so far are exactly those of the sequential history of the
+    completed calls in unlock order, and whenever the mutex is free the WHOLE concrete state (targets, pool map,
+    controllers, connections, watcher sets and objects, pollers) IS the sequential state `afterR` of that history —
+    so every sequential theorem of this file holds in every quiescent state of every concurrent execution. -/
+theorem C16_lts_quiescent_is_sequential (m : MState) (h : GB.LTS.Reachable mstep minit m) :
+    m.results = (runR true init (m.log.map Op.toROp)).2 ∧
+    (m.hold = none → m.st = afterR true (m.log.map Op.toROp)) := by
+  have hi := minv_reachable m h
+  exact ⟨hi.res, hi.quiet⟩
+
+open GB.C16.Lts in
+/-- Bijection in every quiescent state: with the mutex free, the pool entries, the open connections, both watcher
+    sets, the open watcher objects and the running pollers are each in one-to-one correspondence with the present
+    names — every present name owns exactly the objects of its generation (no orphan target), everything alive has
+    exactly one owner (no leak, no duplicate), an absent name has no pool entry and no watch slot, and the four
+    censuses over the allocated ids all equal |present|. -/
+theorem C16_lts_quiescent_bijection (m : MState) (h : GB.LTS.Reachable mstep minit m) (hq : m.hold = none)
+    (N : Nat) (hN : ∀ op ∈ m.log, opName op.toROp < N) :
+    let s := m.st
+    (∀ n g, s.targets n = some g → s.conns n = some g ∧ s.ctrlTarget g = n ∧ s.connOpen g = true ∧
+      s.patternSet n = true ∧ s.pwOpen g = true ∧ s.serviceSet n = true ∧ s.swOpen g = true ∧ s.polling g = true) ∧
+    (∀ n, s.targets n = none → s.conns n = none ∧ s.patternSet n = false ∧ s.serviceSet n = false) ∧
+    (∀ g, (s.polling g = true ∨ s.connOpen g = true ∨ s.pwOpen g = true ∨ s.swOpen g = true) →
+      ∃ n, s.targets n = some g ∧ ∀ n', s.targets n' = some g → n' = n) ∧
+    census s = (targetCount s N, targetCount s N, targetCount s N, targetCount s N) := by
+  intro s
+  have e : s = afterR true (m.log.map Op.toROp) := (C16_lts_quiescent_is_sequential m h).2 hq
+  have hi : C16.Inv s := e ▸ inv_afterR _
+  refine ⟨?_, ?_, ?_, ?_⟩
+  · intro n g hn
+    have l := hi.live n g hn
+    exact ⟨by rw [hi.conns_eq]; exact hn, l.2.1, l.2.2.2.2.1, by rw [hi.pset, hn]; rfl, l.2.2.2.2.2.1,
+      by rw [hi.sset, hn]; rfl, l.2.2.2.2.2.2.1, l.2.2.2.2.2.2.2⟩
+  · intro n hn
+    exact ⟨by rw [hi.conns_eq]; exact hn, by rw [hi.pset, hn]; rfl, by rw [hi.sset, hn]; rfl⟩
+  · intro g hg
+    obtain ⟨n, hn⟩ := hi.owned g hg
+    exact ⟨n, hn, fun n' hn' => hi.inj hn' hn⟩
+  · have c := C16_pollers_eq_present (m.log.map Op.toROp) N (by
+      intro op ho
+      obtain ⟨o, ho', rfl⟩ := List.mem_map.1 ho
+      exact hN o ho')
+    simp only [← e] at c
+    obtain ⟨c1, c2, c3, c4, _⟩ := c
+    simp only [census, c2, c3, c4]
+    simp only [pollers] at c1
+    rw [c1]
+
+open GB.C16.Lts in
+/-- Non-quiescent states: while goroutine `i` holds the mutex inside `op` at statement `pc`, the concrete state is the
+    sequential state of the completed calls plus EXACTLY the first `k ≤ 7` statements of `op` — nothing else differs
+    (no other goroutine has touched anything). -/
+theorem C16_lts_inflight_is_prefix (m : MState) (h : GB.LTS.Reachable mstep minit m) (i : Nat) (op : Op) (pc : Pc)
+    (hh : m.hold = some (i, op, pc)) :
+    ∃ k, k ≤ 7 ∧ (m.st, pc) = iter k (afterR true (m.log.map Op.toROp), startPc op) :=
+  (minv_reachable m h).held i op pc hh
+
+open GB.C16.Lts in
+/-- … written out for a successful `Add(n)`: the name is absent in the sequential state `b` of the completed calls, and
+    the state is `b` plus the first `j` statements' work (`partialAdd`: 2 = pool reservation, 3 = client stored and
+    connection open, 4 = pattern watcher registered, 5 = service watcher, 6 = poller started, 7 = in `targets`), at the
+    matching program counter; the census of live objects exceeds |present-before| by exactly that work: connections
+    by 1 from statement 3 on, pattern watchers from 4, service watchers from 5, pollers from 6. -/
+theorem C16_lts_inflight_add_partial_work (m : MState) (h : GB.LTS.Reachable mstep minit m) (i : Nat) (n : Name) (pc : Pc)
+    (hh : m.hold = some (i, .add n .ok, pc))
+    (habs : (afterR true (m.log.map Op.toROp)).targets n = none)
+    (N : Nat) (hN : ∀ op ∈ m.log, opName op.toROp < N) :
+    let b := afterR true (m.log.map Op.toROp)
+    ∃ j, j ≤ 7 ∧ m.st = partialAdd b n j ∧ pc = pcAdd b n j ∧
+      census m.st = (targetCount b N + ge 3 j, targetCount b N + ge 4 j, targetCount b N + ge 5 j, targetCount b N + ge 6 j) := by
+  intro b
+  obtain ⟨k, hk, e⟩ := C16_lts_inflight_is_prefix m h i _ pc hh
+  have hi : C16.Inv b := inv_afterR _
+  simp only [startPc] at e
+  rw [iter_add_ok_absent hi n habs k hk] at e
+  injection e with e1 e2
+  refine ⟨k, hk, e1, e2, ?_⟩
+  rw [e1, census_partialAdd hi n k hk]
+  have c := C16_pollers_eq_present (m.log.map Op.toROp) N (by
+    intro op ho
+    obtain ⟨o, ho', rfl⟩ := List.mem_map.1 ho
+    exact hN o ho')
+  obtain ⟨c1, c2, c3, c4, _⟩ := c
+  simp only [pollers] at c1
+  simp only [census]
+  rw [c1, c2, c3, c4]
+
+open GB.C16.Lts in
+/-- … and for `Remove(n)` of a present name (generation `g`): the state is the sequential state plus the first `j`
+    statements of the teardown (`partialRemove`: 2 = pattern watcher closed + unregistered, 3 = service watcher,
+    4 = poller stopped, 5 = pool entry deleted and connection closed, 6 = out of `targets`); the census is below
+    |present-before| by exactly that work. `Resolver.Close` (statement 4) is the only one that can block. -/
+theorem C16_lts_inflight_remove_partial_work (m : MState) (h : GB.LTS.Reachable mstep minit m) (i : Nat) (n : Name) (g : Nat)
+    (pc : Pc) (hh : m.hold = some (i, .remove n, pc))
+    (hpres : (afterR true (m.log.map Op.toROp)).targets n = some g)
+    (N : Nat) (hN : ∀ op ∈ m.log, opName op.toROp < N) :
+    let b := afterR true (m.log.map Op.toROp)
+    ∃ j, j ≤ 6 ∧ m.st = partialRemove b n g j ∧ pc = pcRemove n g j ∧
+      (let c := census m.st
+       (c.1 + ge 5 j, c.2.1 + ge 2 j, c.2.2.1 + ge 3 j, c.2.2.2 + ge 4 j) =
+         (targetCount b N, targetCount b N, targetCount b N, targetCount b N)) ∧
+      (blocked m pc = true → j = 6 ∨ (j = 3 ∧ m.busy g = true)) := by
+  intro b
+  obtain ⟨k, hk, e⟩ := C16_lts_inflight_is_prefix m h i _ pc hh
+  have hi : C16.Inv b := inv_afterR _
+  simp only [startPc] at e
+  have hk6 : ∃ j, j ≤ 6 ∧ iter k (b, Pc.rLookup n) = iter j (b, Pc.rLookup n) := by
+    by_cases h6 : k ≤ 6
+    · exact ⟨k, h6, rfl⟩
+    · refine ⟨6, by omega, ?_⟩
+      have : k = 6 + 1 := by omega
+      subst this
+      rw [iter_add, iter_remove_present hi n g hpres 6 (by omega)]
+      simp [iter, micro, pcRemove]
+  obtain ⟨j, hj, ej⟩ := hk6
+  rw [ej, iter_remove_present hi n g hpres j hj] at e
+  injection e with e1 e2
+  refine ⟨j, hj, e1, e2, ?_, ?_⟩
+  · rw [e1]
+    have cp := census_partialRemove hi n g hpres j hj
+    intro c
+    refine cp.trans ?_
+    have c := C16_pollers_eq_present (m.log.map Op.toROp) N (by
+      intro op ho
+      obtain ⟨o, ho', rfl⟩ := List.mem_map.1 ho
+      exact hN o ho')
+    obtain ⟨c1, c2, c3, c4, _⟩ := c
+    simp only [pollers] at c1
+    simp only [census]
+    rw [c1, c2, c3, c4]
+  · intro hb
+    rw [e2] at hb
+    match j, hj with
+    | 0, _ => simp [pcRemove, blocked] at hb
+    | 1, _ => simp [pcRemove, blocked] at hb
+    | 2, _ => simp [pcRemove, blocked] at hb
+    | 3, _ => simp [pcRemove, blocked] at hb; exact Or.inr ⟨rfl, hb⟩
+    | 4, _ => simp [pcRemove, blocked] at hb
+    | 5, _ => simp [pcRemove, blocked] at hb
+    | 6, _ => exact Or.inl rfl
+
+open GB.C16.Lts in
+/-- the LTS is not vacuous: Add(0) completes, a Remove(0) tears down to the blocked Resolver.Close while a second
+    goroutine cannot take the mutex, the poller becomes idle, Remove completes and Add(0) by the second goroutine
+    starts over with a fresh generation -/
+example : (GB.LTS.run mstep minit
+    ([.lock 0 (.add 0 .ok)] ++ List.replicate 7 (.step 0) ++ [.unlock 0, .pollerBusy 0, .lock 1 (.remove 0), .step 1, .step 1, .step 1])).map
+      (fun m => (m.hold.map (·.2.2), [m.st.pwOpen 0, m.st.swOpen 0, m.st.polling 0, m.st.connOpen 0], m.st.targets 0)) =
+    some (some (.rCloseRes 0 0), [false, false, true, true], some 0) := by decide
+open GB.C16.Lts in
+example : (GB.LTS.run mstep minit
+    ([.lock 0 (.add 0 .ok)] ++ List.replicate 7 (.step 0) ++ [.unlock 0, .pollerBusy 0, .lock 1 (.remove 0), .step 1, .step 1, .step 1,
+      .step 1])).isNone = true := by decide
+open GB.C16.Lts in
+example : (GB.LTS.run mstep minit
+    ([.lock 0 (.add 0 .ok)] ++ List.replicate 7 (.step 0) ++ [.unlock 0, .pollerBusy 0, .lock 1 (.remove 0), .step 1, .step 1, .step 1,
+      .lock 2 (.add 0 .ok)])).isNone = true := by decide
+open GB.C16.Lts in
+example : (GB.LTS.run mstep minit
+    ([.lock 0 (.add 0 .ok)] ++ List.replicate 7 (.step 0) ++ [.unlock 0, .pollerBusy 0, .lock 1 (.remove 0), .step 1, .step 1, .step 1,
+      .pollerIdle 0, .step 1, .step 1, .step 1, .unlock 1, .lock 2 (.add 0 .ok)] ++ List.replicate 7 (.step 2) ++ [.unlock 2])).map
+      (fun m => (m.results, m.st.targets 0, m.st.connOpen 0, m.st.connOpen 1)) =
+    some ([.add .ok (some .absent), .removed, .add .ok (some .absent)], some 1, false, true) := by decide
+
+open GB.C16.Lts in
+/-- Facts tie for the LTS: the statements of `micro` (Pc order) are the statements of the real `Add` / `Remove` bodies
+    (go/ast trace, regenerated on every run), in the same order, under a lock taken first and released by `defer`. -/
+theorem C16_facts_lts_statements :
+    statementsOf GB.Generated.c16AddTrace = addStatements ∧
+    statementsOf GB.Generated.c16RemoveTrace = removeStatements ∧
+    GB.Generated.c16AddTrace.take 2 = ["lock", "defer-unlock"] ∧
+    GB.Generated.c16RemoveTrace.take 2 = ["lock", "defer-unlock"] := by decide
+
+/-! ## the connectivity state machine as environment of waitForReady (seeded C01-m10, C12-m9) -/
+
+open GB.C16.Conn in
+/-- Connect is requested whenever a wait observes IDLE: with the code's guard (`always`), a Stream on a non-closed
+    connection to a reachable target reaches READY from EVERY channel state and every value of any once-flag — in
+    particular after the channel fell back to IDLE any number of times. -/
+theorem C16_wait_connects_whenever_idle (c : Chan) (dl tested : Bool) (h : c.st ≠ .shutdown) :
+    (waitCall .always dl tested true c).1 = .ready ∧ (waitCall .always dl tested true c).2.st = .ready := by
+  obtain ⟨st, rq⟩ := c
+  cases st <;> simp_all [waitCall]
+
+open GB.C16.Conn in
+/-- … hence any sequence of calls interleaved with drops to IDLE always ends READY. -/
+theorem C16_wait_idle_again_any_number_of_times (n : Nat) (c : Chan) (h : c.st ≠ .shutdown) :
+    (Nat.rec (motive := fun _ => Chan) c (fun _ acc => (waitCall .always false true true (dropToIdle acc)).2) n).st ≠ .shutdown ∧
+    (waitCall .always false true true (dropToIdle
+      (Nat.rec (motive := fun _ => Chan) c (fun _ acc => (waitCall .always false true true (dropToIdle acc)).2) n))).1 = .ready := by
+  constructor
+  · induction n with
+    | zero => exact h
+    | succ n ih => simp [waitCall, dropToIdle]
+  · simp [waitCall, dropToIdle]
+
+open GB.C16.Conn in
+/-- The wait returns when WaitForStateChange reports that the context is over: with a deadline and the result tested,
+    no call waits for ever, whatever the channel does (reachable or not, any guard). -/
+theorem C16_wait_returns_when_ctx_ends (g : ConnectGuard) (reachable : Bool) (c : Chan) :
+    (waitCall g true true reachable c).1 ≠ .waitsForever := by
+  obtain ⟨st, rq⟩ := c
+  cases st <;> cases g <;> cases rq <;> cases reachable <;> simp [waitCall]
+
+open GB.C16.Conn in
+/-- Negative witnesses (kernel `decide`): the once-guard (C01-m10) leaves the second call after a drop to IDLE waiting
+    for ever; ignoring WaitForStateChange's result (C12-m9) leaves a call with a deadline to an unreachable target
+    without end. -/
+theorem C16_once_guard_or_ignored_result_wait_forever :
+    secondCall .once = .waitsForever ∧ secondCall .always = .ready ∧
+    (waitCall .always true false false { st := .idle, requested := false }).1 = .waitsForever ∧
+    (waitCall .always true true false { st := .idle, requested := false }).1 = .endsWithCtx := by decide
